@@ -95,8 +95,9 @@ static void printf_grid() {
 				begin_case("printf-grid", my);
 				std::string wtxt = w;
 				std::vector<uint64_t> pre;
-				if(w == "*") pre.push_back((uint64_t)r.pick(std::vector<int>{0, 1, 7, 20}) | (r.next() << 32));
-				if(p == ".*") pre.push_back((uint64_t)r.pick(std::vector<int>{0, 1, 4, 15}) | (r.next() << 32));
+				// '*' arguments: also negative ones (ISO C: a negative width is the - flag plus a positive width, a negative precision counts as omitted)
+				if(w == "*") pre.push_back((uint64_t)(uint32_t)r.pick(std::vector<int>{0, 1, 7, 20, -1, -7, -20}) | (r.next() << 32));
+				if(p == ".*") pre.push_back((uint64_t)(uint32_t)r.pick(std::vector<int>{0, 1, 4, 15, -1, -6}) | (r.next() << 32));
 				std::string fmt = "%" + flags + wtxt + p + len + std::string(1, conv);
 				std::vector<Val> vals;
 				if(is_int) vals = int_values(len, is_signed, r, my % 2);
